@@ -860,6 +860,13 @@ class PkgGen:
                         "overload_fn": False}
             modules.append(zz_module([self.root]))
             modules.append(zz_module(sub[0]))
+            # ANOTHER private module directly in the package defines a class of the re-exported name that nobody re-exports: it is
+            # private through its module whatever un-aliased imports the package's __init__ holds
+            legacy = zz_module([self.root])
+            legacy["name"], legacy["qname"] = "_zz_legacy", f"{self.root}._zz_legacy"
+            legacy["classes"][0]["qname"] = f"{self.root}._zz_legacy.ZzEngine"
+            legacy["functions"] = []
+            modules.append(legacy)
             # a PRIVATE module-level class that the package re-exports under a public alias, followed in the same module by a
             # public class with a NESTED private class of the same name (and a private method named like a re-exported
             # private function): the re-export verdict of the first must not be reused for the members
